@@ -34,8 +34,16 @@ WhyNotBest(r, A) ==
        THEN {"port_weight_or_priority_altered"}
   ELSE {"result_is_not_a_record_of_the_answer"}
 
-FlavourFails(ln, f, sfx) ==
+(* the resolver reported NXDOMAIN / no answer for the first query: the lookup fails and no other name is asked for *)
+FailureFails(ln, f, sfx) ==
   IF f.n = 0 THEN {"no_srv_query_made" \o sfx}
+  ELSE (IF \E i \in 1 .. Len(f.qnames) : f.qnames[i] # QueryName(ln.domain)
+          THEN {"asks_for_another_name_after_the_locator_name_failed" \o sfx} ELSE {})
+       \cup (IF f.out = "record" THEN {"failed_lookup_returns_a_record" \o sfx} ELSE {})
+
+FlavourFails(ln, f, sfx) ==
+  IF ln.fail # "none" THEN FailureFails(ln, f, sfx)
+  ELSE IF f.n = 0 THEN {"no_srv_query_made" \o sfx}
   ELSE
     (IF f.qname # QueryName(ln.domain) THEN {"query_name_is_not_the_dc_locator_name" \o sfx} ELSE {})
     \cup (IF f.rdtype # "SRV" THEN {"query_type_is_not_SRV" \o sfx} ELSE {})
